@@ -154,6 +154,21 @@ CHECKS["C19"] = dict(
     note="Only the active, unsplit, left-to-right window; status row and attributes are not compared; terminal widths are "
          "assumed to agree with the editor's tables. The lexer (ttylex.py) is trusted; unknown sequences fail the trace.")
 
+CHECKS["C05"] = dict(
+    level="model_checking",
+    text="Command streams - the behaviours TLC generates from Ex.tla and Vi.tla, the 60 repository test scripts, mutations of both "
+         "(truncation, deletion, duplication, transposition, spliced out-of-range addresses, huge counts, unknown commands, runs around and "
+         "beyond the 512-byte command limit, wide / combining / right-to-left text) and nonsense streams from the token vocabulary - run on "
+         "the ASan+UBSan traced binary under sampled windows (2x2 .. 50x132), initial files and EXINIT option settings; each must reach its "
+         "quit command (complete trace, exit 0, no sanitizer report, time bound). The recorded states are validated by TLC against "
+         "TraceInv.tla: valid UTF-8 lines, well-formed buffer table, undo cursor inside the log, cursor on an existing character and inside "
+         "the window at every vi command boundary.",
+    design="8/C05", technique="TLC-generated and mutated command streams on a sanitizer build; TLC trace validation of recorded states against TraceInv.tla",
+    note="Sampled, not exhaustive: absence of memory errors is established for the executed streams only. Shell-outs run a stub filter; "
+         "^Z is removed; work proportional to a typed count of 10^8 or more is inconclusive rather than a hang; signed arithmetic wraps "
+         "(-fwrapv). The nullable-loop hang of the matcher is a known finding (one corpus stream replays it; streams containing such "
+         "patterns are set aside).")
+
 NOT_YET = {}
 
 def main():
@@ -181,7 +196,7 @@ def main():
         "setup_cmd": "bin/setup",
         "hooks": {
             "guard": "NEATVI_VERIF",
-            "enable": "make CC=clang CFLAGS='-DNEATVI_VERIF -g -O1 -fsanitize=address,undefined -fno-sanitize=nonnull-attribute' LDFLAGS='-fsanitize=address,undefined' (done by harness/common.py on a scratch copy of /repo's working tree)",
+            "enable": "make CC=clang CFLAGS='-DNEATVI_VERIF -g -O1 -fsanitize=address,undefined -fno-sanitize=nonnull-attribute -fwrapv' LDFLAGS='-fsanitize=address,undefined' (done by harness/common.py on a scratch copy of /repo's working tree)",
             "baseline_off_cmd": "cd /repo && make clean >/dev/null && make >/dev/null && sh test.sh",
             "source_commits": [l.split()[0] for l in os.popen("git -C /repo log --format='%h %s' | grep ' verif:'").read().splitlines()],
             "add_only": True,
